@@ -21,7 +21,15 @@
      1302  a queued change is broadcast to nobody between a completed full sync and the stream
            attach (it is in neither the snapshot nor the stream)
      1303  a change is dropped because the client channel is full
-     1304  a change is refused because the pending queue is full *)
+     1304  a change is refused because the pending queue is full
+
+   The active's client registry (sseClients): the standby's current stream is [cq]; streams of the
+   standby whose handler is still attached on the active although the standby has lost them (half-open
+   connection, link flap: op [Drop]) stay registered as zombies [zs] (their queue lengths: they are
+   still broadcast to, nobody reads them) until their handler exits ([Reap]: it unregisters ITS OWN
+   entry).  A new stream can be attached while zombies exist.  The stream handler registers its channel
+   BEFORE it sends (and blocks in the flush of) the initial heartbeat: [Attach] leaves that heartbeat
+   in the handler's hands, the client is registered from that instant. *)
 From Coq Require Import NArith List Bool.
 From Verif Require Import Model.HaSyncFields.
 Import ListNotations.
@@ -79,10 +87,11 @@ Record state := mkS {
   sqn : N;              (* active's sequenceNum *)
   pend : list msg;      (* active's pendingChanges *)
   cq : list msg;        (* the standby's client channel on the active (head = oldest) *)
-  lnk : link
+  lnk : link;
+  zs : list N           (* zombie registrations on the active: queue length of each (oldest first) *)
 }.
 
-Definition init : state := mkS [] [] [] 0 [] [] LDown.
+Definition init : state := mkS [] [] [] 0 [] [] LDown [].
 
 Fixpoint tset (t : table) (i : nat) (x : option rec) : table :=
   match t, i with
@@ -123,7 +132,9 @@ Inductive op :=
                            flight, undecodable): nothing is applied, standbyLoop starts over *)
 | Attach                (* standby: connectToStream succeeded (after a full sync) *)
 | Deliver               (* the oldest message in the stream reaches handleSSEData *)
-| Disconnect
+| Disconnect            (* orderly: the active's handler notices and unregisters *)
+| Drop                  (* the standby loses the stream, the active's handler stays attached (zombie) *)
+| Reap                  (* the oldest zombie handler exits: deferred delete of its registration *)
 | Restart.              (* the active process restarts: empty store, sequence numbers from 0,
                            queues gone, the stream (if any) is closed *)
 
@@ -137,28 +148,34 @@ Inductive res :=
 
 Record out := mkOut {
   o_act : table; o_sby : table; o_rcv : table;
-  o_plen : N; o_qlen : N; o_lnk : link; o_res : res
+  o_plen : N; o_qlen : N; o_lnk : link; o_res : res;
+  o_ncl : N             (* number of registered stream clients on the active *)
 }.
 
 Definition len {A} (l : list A) : N := N.of_nat (length l).
 
 Definition push (c : config) (s : state) (a : table) (m : msg) : state * res * list N :=
   if len (pend s) <? c_pcap c
-  then (mkS a (sby s) (rcv s) (sqn s + 1) (pend s ++ [m]) (cq s) (lnk s), RPush m true, [])
-  else (mkS a (sby s) (rcv s) (sqn s + 1) (pend s) (cq s) (lnk s), RPush m false, [1304]).
+  then (mkS a (sby s) (rcv s) (sqn s + 1) (pend s ++ [m]) (cq s) (lnk s) (zs s), RPush m true, [])
+  else (mkS a (sby s) (rcv s) (sqn s + 1) (pend s) (cq s) (lnk s) (zs s), RPush m false, [1304]).
+
+(* a zombie's channel takes the message too (or drops it when full); nobody reads it *)
+Definition zbump (c : config) (z : list N) : list N :=
+  map (fun n => if n <? c_ccap c then n + 1 else n) z.
 
 (* broadcastToClients for one message *)
 Definition bcast (c : config) (s : state) (p : list msg) (m : msg) (change : bool) : state * res * list N :=
+  let z := zbump c (zs s) in
   match lnk s with
   | LStreaming =>
       if len (cq s) <? c_ccap c
-      then (mkS (act s) (sby s) (rcv s) (sqn s) p (cq s ++ [m]) (lnk s), RBcast m BQueued, [])
-      else (mkS (act s) (sby s) (rcv s) (sqn s) p (cq s) (lnk s), RBcast m BDropped,
+      then (mkS (act s) (sby s) (rcv s) (sqn s) p (cq s ++ [m]) (lnk s) z, RBcast m BQueued, [])
+      else (mkS (act s) (sby s) (rcv s) (sqn s) p (cq s) (lnk s) z, RBcast m BDropped,
             if change then [1303] else [])
   | LSynced =>
-      (mkS (act s) (sby s) (rcv s) (sqn s) p (cq s) (lnk s), RBcast m BNoClient,
+      (mkS (act s) (sby s) (rcv s) (sqn s) p (cq s) (lnk s) z, RBcast m BNoClient,
        if change then [1302] else [])
-  | LDown => (mkS (act s) (sby s) (rcv s) (sqn s) p (cq s) (lnk s), RBcast m BNoClient, [])
+  | LDown => (mkS (act s) (sby s) (rcv s) (sqn s) p (cq s) (lnk s) z, RBcast m BNoClient, [])
   end.
 
 Definition isSome {A} (x : option A) : bool := match x with Some _ => true | None => false end.
@@ -179,35 +196,46 @@ Definition step_core (c : config) (s : state) (o : op) : state * res * list N :=
       match lnk s with
       | LStreaming => (s, RSkip, [])
       | _ => let snap := snapshot (act s) in
-             (mkS (act s) (fsync snap (sby s)) snap (sqn s) (pend s) (cq s) LSynced, RSync true, [])
+             (mkS (act s) (fsync snap (sby s)) snap (sqn s) (pend s) (cq s) LSynced (zs s), RSync true, [])
       end
   | SyncFail =>
       match lnk s with
       | LStreaming => (s, RSkip, [])
-      | _ => (mkS (act s) (sby s) (rcv s) (sqn s) (pend s) (cq s) LDown, RSync false, [])
+      | _ => (mkS (act s) (sby s) (rcv s) (sqn s) (pend s) (cq s) LDown (zs s), RSync false, [])
       end
   | Attach =>
       match lnk s with
-      | LSynced => (mkS (act s) (sby s) (rcv s) (sqn s) (pend s) [] LStreaming, RNone, [])
+      | LSynced => (mkS (act s) (sby s) (rcv s) (sqn s) (pend s) [MHb 0] LStreaming (zs s), RNone, [])
       | _ => (s, RSkip, [])
       end
   | Deliver =>
       match lnk s, cq s with
       | LStreaming, m :: tl =>
           let m' := wire_msg m in
-          (mkS (act s) (apply_msg m' (sby s)) (apply_msg m' (rcv s)) (sqn s) (pend s) tl (lnk s), RDeliver m', [])
+          (mkS (act s) (apply_msg m' (sby s)) (apply_msg m' (rcv s)) (sqn s) (pend s) tl (lnk s) (zs s), RDeliver m', [])
       | _, _ => (s, RSkip, [])
       end
   | Disconnect =>
       match lnk s with
       | LDown => (s, RSkip, [])
-      | _ => (mkS (act s) (sby s) (rcv s) (sqn s) (pend s) [] LDown, RNone, [])
+      | _ => (mkS (act s) (sby s) (rcv s) (sqn s) (pend s) [] LDown (zs s), RNone, [])
       end
-  | Restart => (mkS [] (sby s) (rcv s) 0 [] [] LDown, RNone, [])
+  | Drop =>
+      match lnk s with
+      | LStreaming => (mkS (act s) (sby s) (rcv s) (sqn s) (pend s) [] LDown (zs s ++ [len (cq s)]), RNone, [])
+      | _ => (s, RSkip, [])
+      end
+  | Reap =>
+      match zs s with
+      | [] => (s, RSkip, [])
+      | _ :: z => (mkS (act s) (sby s) (rcv s) (sqn s) (pend s) (cq s) (lnk s) z, RNone, [])
+      end
+  | Restart => (mkS [] (sby s) (rcv s) 0 [] [] LDown [], RNone, [])
   end.
 
 Definition observe (s : state) (r : res) : out :=
-  mkOut (act s) (sby s) (rcv s) (len (pend s)) (len (cq s)) (lnk s) r.
+  mkOut (act s) (sby s) (rcv s) (len (pend s)) (len (cq s) + fold_right N.add 0 (zs s)) (lnk s) r
+        ((match lnk s with LStreaming => 1 | _ => 0 end) + len (zs s)).
 
 Definition step (c : config) (s : state) (o : op) : state * out * list N :=
   let '(s1, r, mk) := step_core c s o in (s1, observe s1 r, mk).
@@ -255,4 +283,4 @@ Definition res_eqb (a b : res) : bool :=
 Definition out_eqb (a b : out) : bool :=
   teqb (o_act a) (o_act b) && teqb (o_sby a) (o_sby b) && teqb (o_rcv a) (o_rcv b)
   && (o_plen a =? o_plen b) && (o_qlen a =? o_qlen b) && link_eqb (o_lnk a) (o_lnk b)
-  && res_eqb (o_res a) (o_res b).
+  && res_eqb (o_res a) (o_res b) && (o_ncl a =? o_ncl b).
